@@ -83,7 +83,7 @@ def is_test_file(file_path: Path | None) -> bool:
     """
     if not file_path:
         return False
-    return file_path.name.startswith("test_") or "_test.py" in file_path.name
+    return file_path.name.startswith("test_") or file_path.name.endswith("_test.py")
 
 
 def is_constant_definition(node: ast.Constant, parent: ast.AST | None) -> bool:
